@@ -39,6 +39,9 @@ impl Engine for VmEngine {
         match prop {
             "C31" | "C32" => {
                 let reference = replicas::run_reference(&world, sc, ctx);
+                if prop == "C31" && replicas::run_real_client(&world, sc, &reference, ctx) {
+                    return;
+                }
                 replicas::run_replicas(prop, &world, sc, &reference, ctx);
             }
             "C28" => {
